@@ -36,6 +36,7 @@ REQUESTS = [
     ('fault_client', 'fail', [('code', 'Client.Custom'), ('msg', 'm1')]),
     ('fault_server', 'fail', [('code', 'Server.Custom'), ('msg', 'm2')]),
     ('exc', 'boom', [('token', 'TOK')]),
+    ('gen_exc', 'gboom', [('token', 'TOK')]),          # a generator function that raises before its first yield
     ('ded_toolong', 'dedicated', [('which', 'toolong')]),
     ('ded_notfound', 'dedicated', [('which', 'notfound')]),
     ('ded_notallowed', 'dedicated', [('which', 'notallowed')]),
